@@ -80,6 +80,12 @@ def run(ctx):
         ngram = ctx.rng.choice([2, 3, 4])
         entries = trainer_io.gen_entries(ctx.rng, enc, n_distinct=ctx.rng.randint(3, 12))
         passwords = trainer_io.flatten(entries)
+        if enc == "utf-8" and i % 3 == 0:
+            # letters whose case folding differs from their lower case but whose case mapping is one-to-one
+            # (Cherokee small letters), Greek and Cyrillic with capitals, a word with a final sigma (outside the domain)
+            extra = ctx.rng.sample(["ꭰꭱꭲꭳ1", "ꭰꭱꭲꭳꭴꭵ", "Ꭰꭱꭲꭳ", "Ωμέγα7", "κόσμος", "Привет1", "ÀÉÎõü", "ǆabc"], 4)
+            for x in extra:
+                passwords += [x] * ctx.rng.choice([1, 2, 5])
         if not passwords:
             continue
         fn = os.path.join(sc, "train_%d.txt" % i)
